@@ -53,6 +53,11 @@ Encode(r, list) ==
                \o (IF r.err = <<>> THEN OKLINE \o <<10>> ELSE EncAck(r.err))
   ELSE IF r.err = <<>> THEN EncFrame(r.frames[1]) \o OKLINE \o <<10>>
   ELSE EncAck(r.err)
+\* a failing command may have printed part of its output before the ACK: those lines (junk) belong to no frame
+EncodeJ(r, list, junk) ==
+  IF r.err = <<>> THEN Encode(r, list)
+  ELSE (IF list THEN Cat([k \in 1..Len(r.frames) |-> EncFrame(r.frames[k]) \o LISTOK \o <<10>>]) ELSE <<>>)
+       \o Cat([k \in 1..Len(junk) |-> EncField(junk[k])]) \o EncAck(r.err)
 
 \* ---------------------------------------------------------------- reference decoder
 \* an ACK line (without LF): [ok, e]
